@@ -22,6 +22,11 @@ fn first_diff_kind(m: &Inst, got: &[rspirv::dr::Operand]) -> String {
 
 /// checks one grammar-conforming instruction behind `prefix`
 pub fn check_shape(prefix: &[Inst], s: &Shape) -> (Vec<Viol>, &'static str) {
+    check_shape_hdr(prefix, s, 0x0001_0600, 0)
+}
+
+/// the same under a given header version word and generator word
+pub fn check_shape_hdr(prefix: &[Inst], s: &Shape, version: u32, generator: u32) -> (Vec<Viol>, &'static str) {
     let mut out = vec![];
     let m = &s.inst;
     let name = m.name();
@@ -56,7 +61,7 @@ pub fn check_shape(prefix: &[Inst], s: &Shape) -> (Vec<Viol>, &'static str) {
         }
     }
     // parse: header ++ context ++ words delivers an equal instruction
-    let mut words = model::header(0x0001_0600, 0, 4096);
+    let mut words = model::header(version, generator, 4096);
     for p in prefix {
         words.extend(enc(p));
     }
@@ -95,8 +100,30 @@ pub fn run(tier: Tier) -> Run {
     let mut work: Vec<(Vec<Inst>, Shape)> = universe::all_shapes(tier).into_iter().map(|s| (vec![], s)).collect();
     work.extend(universe::scale_shapes(tier).into_iter().map(|s| (vec![], s)));
     work.extend(universe::pattern_shapes(tier).into_iter().map(|s| (vec![], s)));
+    // long-range: every capability declaration in front of the minimal shape of every opcode (what an instruction parses
+    // to must not depend on the capabilities the module declares)
+    {
+        let caps: Vec<u32> = g.enums["Capability"].declared().into_iter().collect();
+        for c in caps {
+            let pre = vec![Inst::new("Capability", None, None, vec![Arg::Enum("Capability", c)])];
+            for gi in &g.insts {
+                work.push((pre.clone(), Shape { id: format!("{}:min:after-capability-{}", gi.name, c), inst: universe::minimal(gi) }));
+            }
+        }
+        // and every addressing / memory model
+        for (_, a) in g.enums["AddressingModel"].variants.iter() {
+            for (_, m) in g.enums["MemoryModel"].variants.iter() {
+                let pre = vec![Inst::new("MemoryModel", None, None, vec![Arg::Enum("AddressingModel", *a), Arg::Enum("MemoryModel", *m)])];
+                for gi in &g.insts {
+                    work.push((pre.clone(), Shape { id: format!("{}:min:after-memory-model-{}-{}", gi.name, a, m), inst: universe::minimal(gi) }));
+                }
+            }
+        }
+    }
     // typed literals under id relabellings and behind function boundaries (conforming ones only)
     work.extend(crate::checks::c03::context_variants().into_iter().filter(|(_, s)| !s.id.contains(":type14:")));
+    // OpExtInst behind imports of named sets: its trailing operands are ids whatever the set
+    work.extend(crate::checks::c03::ext_inst_variants());
     let ctx = type_context();
     for (pre, s) in context_shapes() {
         // only conforming ones: the literal width the type demands (type 14 = 128 bit is not expressible)
@@ -161,7 +188,23 @@ pub fn run(tier: Tier) -> Run {
             }
         }
     }
-    let res: Vec<(Vec<Viol>, &'static str)> = work.par_iter().map(|(p, s)| check_shape(p, s)).collect();
+    let mut res: Vec<(Vec<Viol>, &'static str)> = work.par_iter().map(|(p, s)| check_shape(p, s)).collect();
+    // every header version 0.0 .. 2.0 / 255.255 and every generator tool id x the minimal shape of every opcode (what
+    // an instruction parses to must not depend on the header)
+    {
+        let versions: Vec<u32> = vec![0, 0x0001_0000, 0x0001_0100, 0x0001_0200, 0x0001_0300, 0x0001_0400, 0x0001_0500, 0x0001_0600, 0x0001_0700, 0x0002_0000, 0x00FF_FF00, 0xFFFF_FFFF];
+        let gens: Vec<u32> = (0u32..=45).map(|t| (t << 16) | 7).chain([0xFFFF_FFFF, 1]).collect();
+        let hw: Vec<(u32, u32)> = versions.iter().map(|v| (*v, 0u32)).chain(gens.iter().map(|gw| (0x0001_0300u32, *gw))).collect();
+        let extra: Vec<(Vec<Viol>, &'static str)> = g
+            .insts
+            .par_iter()
+            .flat_map_iter(|gi| {
+                let sh = Shape { id: format!("{}:min:headers", gi.name), inst: universe::minimal(gi) };
+                hw.iter().map(move |(v, gw)| check_shape_hdr(&[], &sh, *v, *gw)).collect::<Vec<_>>()
+            })
+            .collect();
+        res.extend(extra);
+    }
     let mut oc: BTreeMap<String, u64> = BTreeMap::new();
     for (v, o) in res {
         run.add_all(v);
